@@ -225,8 +225,12 @@ vf::Outcome run_case(const vf::Case& c, const vf::RunCtx& ctx) {
     if (r.check_valid) k.bound("functor output valid:" + r.name, r.out_dev, manif::Constants<double>::eps, r.name + ": the state written by the functor is not a valid element");
     k.bound("primal:" + r.name, r.perr, 64 * kU * 4, r.name + ": primal part over the dual scalar differs from the double computation");
     MatL extra;
-    if (r.rows_tan && r.cols_tan) extra = lin_row_scale(s, Sv) * (LD)(64 * kU / kJacTol);
-    else if (r.scale.size()) extra = r.scale;
+    // In the small-angle (Taylor) branches AD differentiates the truncated series: dropping W^2/12 from V^-1 below
+    // theta = 3e-7 leaves a derivative error of theta*|p|/6 <= 5e-8*|p| on the rows of linear type, i.e. relative to the
+    // coordinate scale S, not to the (possibly much smaller) Jacobian block. Allowance: 1e-7 * S on those rows.
+    const LD ad_allow = 1e-7L / (LD)kJacTol;
+    if (r.rows_tan && r.cols_tan) extra = lin_row_scale(s, Sv) * ad_allow;
+    else if (r.scale.size()) { extra = r.scale; if (r.needs_log) extra.array() += (LD)S * ad_allow; }
     const LD err = jac_block_err(s, r.Jad, r.Jan, r.rows_tan, r.cols_tan, extra.size() ? &extra : nullptr);
     k.bound("AD=analytic:" + r.name, (double)err, kJacTol, r.name + ": derivative through the dual parts differs from the analytic Jacobian");
     int nz = 0; for (int i = 0; i < r.Jad.rows(); ++i) for (int j = 0; j < r.Jad.cols(); ++j) if (r.Jad(i, j) != 0) ++nz;
